@@ -41,26 +41,15 @@ pub fn bin_to_id(buf: &[u8]) -> (r: u64) requires buf@.len() >= 8 ensures be64(r
 #[verifier::reject_recursive_types(A)]
 pub struct Context<A> { inner: core::marker::PhantomData<A> }
 
-pub enum RaftIndexResponse { None, Other }
 
-/// the actor: only the state the verified writers touch is modelled; `last_handed` records the DTO given to the
-/// (unverified, A-WAIT) async wrapper `write_index`
+/// the actor: only the state the verified writers touch is modelled (the real struct also holds the directory path, the lock
+/// file and the address of the naming node manager — pinned by [[expect_text]])
 pub struct RaftIndexManager {
     pub inner: Option<Box<RaftIndexInnerManager>>,
-    pub last_handed: Ghost<Option<(RaftIndexDto, bool)>>,
 }
 impl RaftIndexManager {
     #[verifier::external_body]
     pub fn inner_is_empty_error() -> anyhow::Error { unimplemented!() }
-
-    /// model of the async wrapper: hands `index` to RaftIndexInnerManager::write_index and waits
-    #[verifier::external_body]
-    pub fn write_index(&mut self, ctx: &mut Context<Self>, index: RaftIndexDto, change_member: bool) -> (r: anyhow::Result<RaftIndexResponse>)
-        ensures final(self).last_handed@ == Some((index, change_member)),
-            final(self).inner is Some == old(self).inner is Some,
-            old(self).inner is Some ==> r is Ok && final(self).inner.unwrap().raft_index == old(self).inner.unwrap().raft_index
-                && final(self).inner.unwrap().last_applied_log == old(self).inner.unwrap().last_applied_log,
-    { unimplemented!() }
 }
 
 } // verus!
